@@ -74,7 +74,8 @@ impl Decoder {
                     self.state = RecvState::Dropping(remaining_length - to_drop)
                 }
 
-                (None, data.split_to(to_drop))
+                data.advance(to_drop);
+                (None, data)
             }
         }
     }
